@@ -275,6 +275,13 @@ def m_c03(ctx, st, hist):
                     and not st["pre"].get("hostile_fail"):
                 ctx.add("C03", "claim_refused", st["i"], "%s bought listing %s and is refused its goods (status %s): claimable zero times"
                         % (op["sender"], op["msg"]["id"], l["status"]))
+        # the bucket side of the swap, and the buckets of buyers who lost: a bucket's holder (the seller after a sale, the
+        # depositor otherwise) asks for it, nothing is attached, no fault is injected, it holds no hostile asset - refused
+        if op["t"] == "exec" and op["msg"]["k"] == "remove_bucket" and not op["funds"] and op.get("fail") is None:
+            b = bmap(st["pre"]).get((op["sender"], op["msg"]["id"]))
+            if b is not None and not ctx.has_hostile(b["funds"]) and not st["pre"].get("hostile_fail"):
+                ctx.add("C03", "bucket_claim_refused", st["i"], "%s holds bucket %s and is refused its contents: claimable zero times"
+                        % (op["sender"], op["msg"]["id"]))
         return
     mm = market_msg(op)
     if mm is None:
